@@ -12,14 +12,14 @@ import (
 
 // guardEntry: one row of the frozen GUARDED-BY table.
 type guardEntry struct {
-	Name    string     // display name
-	Field   *types.Var // guarded struct field (nil for globals)
-	Global  *ssa.Global
-	Elem    bool   // Field belongs to an element type reached through the owner's guarded container
-	Mutex   string // canonical key of the guarding mutex, "$0.Mutex" style (relative to the owner receiver) or a global's name
-	RW      bool   // guarding mutex is a RWMutex (reads may hold R)
-	Why     string
-	Owner   string // owner type (receiver) full name, for fields
+	Name   string     // display name
+	Field  *types.Var // guarded struct field (nil for globals)
+	Global *ssa.Global
+	Elem   bool   // Field belongs to an element type reached through the owner's guarded container
+	Mutex  string // canonical key of the guarding mutex, "$0.Mutex" style (relative to the owner receiver) or a global's name
+	RW     bool   // guarding mutex is a RWMutex (reads may hold R)
+	Why    string
+	Owner  string // owner type (receiver) full name, for fields
 }
 
 func buildGuardTable(c *Ctx) []*guardEntry {
@@ -338,19 +338,21 @@ func ruleGuardedBy(c *Ctx, prefix string, only ...string) {
 		}
 		ex.Run()
 		n := 0
-		for _, b := range fn.Blocks {
-			for _, in := range b.Instrs {
-				r, ok := sites[in]
-				if !ok {
-					continue
-				}
-				n++
-				counts[r.e.Name]++
-				key := fmt.Sprintf("%s %s %s#%d", shortFn(fn), r.kind, r.e.Name, n)
-				if r.bad != "" {
-					c.R.bad(prefix+"GUARDED-BY", key, c.P.InstrPos(in), shortFn(fn), r.bad)
-				} else {
-					c.R.ok(prefix+"GUARDED-BY", key, c.P.InstrPos(in), shortFn(fn), fmt.Sprintf("%s held in all %d abstract states", shortName(r.e.Mutex), r.n))
+		for _, g := range inlineFuncs(fn) {
+			for _, b := range g.Blocks {
+				for _, in := range b.Instrs {
+					r, ok := sites[in]
+					if !ok {
+						continue
+					}
+					n++
+					counts[r.e.Name]++
+					key := fmt.Sprintf("%s %s %s#%d", shortFn(fn), r.kind, r.e.Name, n)
+					if r.bad != "" {
+						c.R.bad(prefix+"GUARDED-BY", key, c.P.InstrPos(in), shortFn(fn), r.bad)
+					} else {
+						c.R.ok(prefix+"GUARDED-BY", key, c.P.InstrPos(in), shortFn(fn), fmt.Sprintf("%s held in all %d abstract states", shortName(r.e.Mutex), r.n))
+					}
 				}
 			}
 		}
